@@ -47,10 +47,10 @@ def run(ctx):
             elif c < 0.5:
                 steps.append("H:" + r.choice([HTTP_REQ, HTTP_RESP, HTTP_REQ[:20], b"\r\n\r\n", HTTP_REQ + b"body", b""]).hex() + ":" + r.choice("yab"))
             elif c < 0.72:
-                steps.append(f"I:{packet(r)}:{hx(r.choice(SIGS))}")
+                steps.append(f"I:{packet(r)}:{hx(r.choice(SIGS))}:{r.choice([0, 0, 1, 3])}")
                 interesting = True
             elif c < 0.84:
-                steps.append(f"K:{packet(r)}:{hx(r.choice(LABELS))}")
+                steps.append(f"K:{packet(r)}:{hx(r.choice(LABELS))}:{r.choice([0, 1, 2, 5])}")
                 interesting = True
             else:
                 steps.append(f"J:{packet(r)}:{r.choice([1500, 1492, 576, 65535, 41, 40, 1])}")
